@@ -34,6 +34,7 @@
 use std::collections::{BTreeMap, BTreeSet};
 use std::ffi::{CStr, CString};
 use std::io::{self, Read, Seek, SeekFrom, Write};
+use std::sync::atomic::{AtomicI64, Ordering};
 use std::sync::{Arc, Mutex};
 use std::time::Duration;
 
@@ -56,6 +57,9 @@ struct LogLayer {
     inner: PassthroughFs<()>,
     idx: usize,
     log: CallLog,
+    /// fault injection: when > 0, counts layer lookups down; the lookup that reaches 0 fails once
+    /// with EMFILE (a transient resource fault of the host)
+    fault: Arc<AtomicI64>,
 }
 
 impl LogLayer {
@@ -68,6 +72,9 @@ impl FileSystem for LogLayer {
     type Inode = u64;
     type Handle = u64;
     fn lookup(&self, ctx: &Context, parent: u64, name: &CStr) -> io::Result<Entry> {
+        if self.fault.load(Ordering::SeqCst) > 0 && self.fault.fetch_sub(1, Ordering::SeqCst) == 1 {
+            return Err(io::Error::from_raw_os_error(libc::EMFILE));
+        }
         self.inner.lookup(ctx, parent, name)
     }
     fn forget(&self, ctx: &Context, inode: u64, count: u64) {
@@ -203,17 +210,18 @@ impl Layer for LogLayer {
 
 type BoxedLayer = Box<dyn Layer<Inode = u64, Handle = u64> + Send + Sync>;
 
-fn new_layer(dir: &str, idx: usize, log: &CallLog) -> io::Result<Arc<BoxedLayer>> {
+fn new_layer(dir: &str, idx: usize, log: &CallLog, fault: &Arc<AtomicI64>) -> io::Result<Arc<BoxedLayer>> {
     // exactly the documented construction (tests/overlay): new + import, xattr on, never `init`
     let cfg = PtConfig { root_dir: dir.to_string(), xattr: true, do_import: true, ..Default::default() };
     let fs = PassthroughFs::<()>::new(cfg)?;
     fs.import()?;
-    Ok(Arc::new(Box::new(LogLayer { inner: fs, idx, log: log.clone() }) as BoxedLayer))
+    Ok(Arc::new(Box::new(LogLayer { inner: fs, idx, log: log.clone(), fault: fault.clone() }) as BoxedLayer))
 }
 
 struct Inst {
     fs: OverlayFs,
     log: CallLog,
+    fault: Arc<AtomicI64>,
 }
 
 fn layer_dir(base: &str, i: usize) -> String {
@@ -222,15 +230,16 @@ fn layer_dir(base: &str, i: usize) -> String {
 
 fn build(base: &str, up: bool, nl: usize) -> io::Result<Inst> {
     let log: CallLog = Arc::new(Mutex::new(Vec::new()));
-    let upper = if up { Some(new_layer(&layer_dir(base, 0), 0, &log)?) } else { None };
+    let fault = Arc::new(AtomicI64::new(0));
+    let upper = if up { Some(new_layer(&layer_dir(base, 0), 0, &log, &fault)?) } else { None };
     let mut lowers = Vec::new();
     for i in 1..=nl {
-        lowers.push(new_layer(&layer_dir(base, i), i, &log)?);
+        lowers.push(new_layer(&layer_dir(base, i), i, &log, &fault)?);
     }
     let cfg = OvlConfig { do_import: true, ..Default::default() };
     let fs = OverlayFs::new(upper, lowers, cfg)?;
     fs.import()?;
-    Ok(Inst { fs, log })
+    Ok(Inst { fs, log, fault })
 }
 
 fn errno(e: &io::Error) -> String {
@@ -1004,6 +1013,18 @@ fn exec(line: &str, base: &str) -> CaseOut {
         let op: Vec<&str> = o.split(',').collect();
         let name = op[0];
         out.stats.push(format!("op:{}", name));
+        if name == "fwalk" {
+            // a transient host fault (EMFILE on the k-th layer lookup) while the client walks the
+            // tree; whatever that walk answered, every later operation must still see the union.
+            // No record: the model has no faults and skips this step.
+            let k: i64 = op.get(1).and_then(|s| s.parse().ok()).unwrap_or(1);
+            inst.fault.store(k, Ordering::SeqCst);
+            let mut scratch = Vec::new();
+            let _ = walk(&inst, &io, &mut scratch);
+            out.stats.push(format!("fwalk:{}", if inst.fault.load(Ordering::SeqCst) <= 0 { "fault-hit" } else { "fault-not-reached" }));
+            inst.fault.store(0, Ordering::SeqCst);
+            continue;
+        }
         let before = scan_layers(base);
         inst.log.lock().unwrap().clear();
         let mut orc: Vec<(String, String)> = Vec::new();
@@ -1274,7 +1295,19 @@ fn gen_case(r: &mut Prng, prop: &str) -> String {
     let walk_every = if prop == "C11" { r.chance(3, 4) } else { r.chance(1, 3) };
     let mut ops: Vec<String> = Vec::new();
     let mut n = 0;
+    if r.chance(1, 4) {
+        // nothing is loaded yet: the fault hits the first directory loads
+        ops.push(format!("fwalk,{}", r.range(1, 8)));
+        ops.push("walk".to_string());
+    }
     while n < nops {
+        // a transient host fault during a walk, then a clean walk of the live instance
+        if r.chance(1, 16) {
+            ops.push(format!("fwalk,{}", r.range(1, 4)));
+            ops.push("walk".to_string());
+            n += 1;
+            continue;
+        }
         // scripted scenarios that need a specific order
         if r.chance(1, 12) && !dirs.is_empty() {
             let d = r.pick(&dirs).clone();
